@@ -546,7 +546,9 @@ fn c06_inner_check(_ctx: &Ctx, c: &SeqCase) -> Report {
     // the reference disposed this source subscription: at its next emission attempt (the
     // sentinel round forces one on hot sources) the crate's observer must say so
     let sentinel_attempts: Vec<&Attempt> = rp.attempts.iter().filter(|a| a.stamp > r.log.sentinel_stamp).collect();
-    let tolerated = if cause == model::Cause::AmbLoser { 1 } else { 0 };
+    // (the reference ends an amb loser when it first signals, so a loser that is dead
+    // before the sentinel round has had its one undelivered attempt already)
+    let tolerated = 0;
     let live_after: usize = {
       // attempts after the last attempt at which the reference still had it alive are not
       // reconstructed here; the sentinel round and the final probe are what is asserted
@@ -561,7 +563,7 @@ fn c06_inner_check(_ctx: &Ctx, c: &SeqCase) -> Report {
       ));
       return rep;
     }
-    if sentinel_attempts.is_empty() && rp.final_sub && cause != model::Cause::AmbLoser {
+    if sentinel_attempts.is_empty() && rp.final_sub {
       rep.fail = Some(format!(
         "source #{} (subscription {}) was ended by {:?} but its observer still reports is_subscribed()==true | {}",
         mp.sid, mp.sub_no, cause, render(c, r)
